@@ -47,22 +47,21 @@ static std::vector<std::pair<std::string, std::string>> encodings(const std::vec
     return e;
 }
 
-int main(int argc, char **argv) {
-    init(argc, argv);
-    int K = (int)opti("K", quick() ? 1 : 3);
-    for (const PSet &P : SETS) for (int k = 0; k < K; k++) for (int file = 0; file < 2; file++) {
-        if (quick() && P.lam == 80 && file == 0) continue;
-        std::string key = fmt("cloud/%s/seed=%d/%s", P.name, k, file ? "FILE" : "stream");
-        if (!take(key)) continue; if (deadline()) break; current(key);
-        Fate f = forked([&] {
+static TFheGateBootstrappingSecretKeySet *gen_keys(const PSet &P, int k, TFheGateBootstrappingParameterSet *&ps) {
             uint32_t sd[3] = {(uint32_t)S().seed, (uint32_t)k, (uint32_t)fnv(P.name, strlen(P.name))}; tfhe_random_generator_setSeed(sd, 3);
-            TFheGateBootstrappingParameterSet *ps;
             if (P.lam) ps = new_default_gate_bootstrapping_parameters(P.lam);
             else { LweParams *lp = new_LweParams(P.n, 1e-5, 0.01); TLweParams *tp = new_TLweParams(1024, P.k, 1e-9, 0.01); TGswParams *gp = new_TGswParams(P.l, P.Bgbit, tp); ps = new TFheGateBootstrappingParameterSet(P.t, P.basebit, lp, gp); }
             TFheGateBootstrappingSecretKeySet *sk = new_random_gate_bootstrapping_secret_keyset(ps);
+            return sk;
+}
+// order: 0 = cloud exported before the secret key set, 1 = secret key set exported first (the README order)
+static void audit(const std::string &key, const PSet &P, TFheGateBootstrappingParameterSet *ps, TFheGateBootstrappingSecretKeySet *sk, bool file, int order, std::string *cloud_out = nullptr) {
             const int n = ps->in_out_params->n, N = ps->tgsw_params->tlwe_params->N, kk = ps->tgsw_params->tlwe_params->k, l = ps->tgsw_params->l, t = ps->ks_t, bb = ps->ks_basebit;
-            std::string cloud = bytes_of(file, [&](FILE *F) { export_tfheGateBootstrappingCloudKeySet_toFile(F, &sk->cloud); }, [&](std::ostream &o) { export_tfheGateBootstrappingCloudKeySet_toStream(o, &sk->cloud); });
-            std::string secret = bytes_of(file, [&](FILE *F) { export_tfheGateBootstrappingSecretKeySet_toFile(F, sk); }, [&](std::ostream &o) { export_tfheGateBootstrappingSecretKeySet_toStream(o, sk); });
+            std::string cloud, secret;
+            auto ec = [&] { cloud = bytes_of(file, [&](FILE *F) { export_tfheGateBootstrappingCloudKeySet_toFile(F, &sk->cloud); }, [&](std::ostream &o) { export_tfheGateBootstrappingCloudKeySet_toStream(o, &sk->cloud); }); };
+            auto es = [&] { secret = bytes_of(file, [&](FILE *F) { export_tfheGateBootstrappingSecretKeySet_toFile(F, sk); }, [&](std::ostream &o) { export_tfheGateBootstrappingSecretKeySet_toStream(o, sk); }); };
+            if (order) { es(); ec(); } else { ec(); es(); }
+            if (cloud_out) *cloud_out = cloud;
             std::string pset = bytes_of(file, [&](FILE *F) { export_tfheGateBootstrappingParameterSet_toFile(F, ps); }, [&](std::ostream &o) { export_tfheGateBootstrappingParameterSet_toStream(o, ps); });
             // (1) size determined by the parameters
             if (cloud.compare(0, pset.size(), pset)) { violation(key, "cloud export does not start with the parameter-set export"); return; }
@@ -105,9 +104,33 @@ int main(int argc, char **argv) {
             LweSample *a = new_gate_bootstrapping_ciphertext(ps), *b = new_gate_bootstrapping_ciphertext(ps), *r = new_gate_bootstrapping_ciphertext(ps);
             if (P.lam) { bootsSymEncrypt(a, 1, sk); bootsSymEncrypt(b, 1, sk); bootsNAND(r, a, b, ck); if (bootsSymDecrypt(r, sk) != 0) { violation(key, "NAND(1,1) under the imported cloud key decrypts to 1"); return; } }
             eval(1); nontrivial(1); outcome(mix(fnv(cloud.data() + pset.size() + kssec, 64), cloud.size()));
+}
+int main(int argc, char **argv) {
+    init(argc, argv);
+    int K = (int)opti("K", quick() ? 1 : 3);
+    for (const PSet &P : SETS) for (int k = 0; k < K; k++) for (int file = 0; file < 2; file++) {
+        if (quick() && P.lam == 80 && file == 0) continue;
+        std::string key = fmt("cloud/%s/seed=%d/%s", P.name, k, file ? "FILE" : "stream");
+        if (!take(key)) continue; if (deadline()) break; current(key);
+        Fate f = forked([&] {
+            TFheGateBootstrappingParameterSet *ps = nullptr; TFheGateBootstrappingSecretKeySet *sk = gen_keys(P, k, ps);
+            std::string c0, c1; audit(key, P, ps, sk, file, 0, &c0); audit(key, P, ps, sk, file, 1, &c1);
+            if (c0 != c1) violation(key, "the cloud export differs depending on whether the secret key set was exported before it");
         }, 600);
         if (f.died()) violation(key, "process died: " + fate_str(f) + " " + f.text.substr(0, 300));
     }
+    // histories: key sets of two different parameter sets exported by one process, in both orders
+    for (int a = 2; a < 6; a++) for (int b = 2; b < 6; b++) { if (a == b) continue;
+        std::string key = fmt("sequence/%s-then-%s", SETS[a].name, SETS[b].name);
+        if (!take(key)) continue; if (deadline()) break; current(key);
+        Fate f = forked([&] {
+            TFheGateBootstrappingParameterSet *pa = nullptr, *pb = nullptr; TFheGateBootstrappingSecretKeySet *ka = gen_keys(SETS[a], 7, pa), *kb = gen_keys(SETS[b], 8, pb);
+            std::string a0, a1; audit(key, SETS[a], pa, ka, true, 1, &a0); audit(key, SETS[b], pb, kb, false, 0); audit(key, SETS[b], pb, kb, true, 1); audit(key, SETS[a], pa, ka, false, 0, &a1);
+            if (a0 != a1) violation(key, "the cloud export of the first key set changed after another key set was exported");
+        }, 600);
+        if (f.died()) violation(key, "process died: " + fate_str(f) + " " + f.text.substr(0, 300));
+    }
+    sample("sequence/small-n8-k1-then-small-n9-k2: two key sets exported by one process (secret first, then cloud; FILE and stream), every cloud export audited");
     sample("cloud/default-128/seed=0/FILE: 113 MB export; length formula; strict prefix of the secret export; LWE key (630 bits) and ring key (1024 bits) searched in 8 encodings + 64-coefficient windows");
     sample("cloud/small-n9-k2/seed=0/stream: n=9, N=1024, k=2, l=3, Bgbit=7, t=3, basebit=3");
     return finish();
